@@ -12,6 +12,9 @@ use ndarray::{Array3, Axis};
 use parquet::arrow::ArrowWriter;
 use parquet::file::properties::WriterProperties;
 use std::error::Error;
+#[cfg(mini_mcmc_verif)]
+use mcmc_sim::fs::File;
+#[cfg(not(mini_mcmc_verif))]
 use std::fs::File;
 use std::sync::Arc;
 
